@@ -472,7 +472,9 @@ class PosPriorityQueue(Generic[T]):
             if len(self._pq) > 0:
                 self.n_removed += 1
             else:
-                self.n_inserted = self.n_removed = 0
+                # the queue is empty: start counting afresh, so that the time to the
+                # next maintenance does not depend on the history of the queue.
+                self.n_inserted = self.n_removed = self.last_maintenance = 0
 
     def do_maintenance(self) -> None:
         """Iterate over the queue, gather priority information and boost
